@@ -132,9 +132,49 @@ let split_first (s : string) : string * string =
   | None -> (s, "")
   | Some i -> (String.sub s 0 i, String.trim (String.sub s (i + 1) (String.length s - i - 1)))
 
+(* the sequential session model (Model/Session.v) behind a textual UCI front: `uci <command line>` *)
+let usess = ref init_session
+let print_out (o : out) : unit =
+  match o with
+  | OErrorPosition -> print_string "error: Invalid position command\n"
+  | OErrorFen _ -> print_string "error: Invalid FEN string\n"
+  | OErrorMove s -> Printf.printf "error: Invalid move: %s\n" (string_of_text s)
+  | OErrorTooLong -> print_string "error: Game became too long, please try again\n"
+  | OErrorNoGameShow -> print_string "error: No game to show, please set a position first\n"
+  | OErrorNoGameGo -> print_string "error: No game to play, please set a position first\n"
+  | OPanic _ -> print_string "!! panic\n"
+  | ODisplay t -> print_string (string_of_text t ^ "\n")
+  | OInfo t -> print_string (string_of_text t ^ "\n")
+  | OBestMove None -> print_string "bestmove none\n"
+  | OBestMove (Some t) -> Printf.printf "bestmove %s\n" (string_of_text t)
+  | OReadyOk -> print_string "readyok\n"
+  | OIdName -> print_string "id name rustybait\n"
+  | OIdAuthor -> print_string "id author Malanca Daniel\n"
+  | OUciOk -> print_string "uciok\n"
+
+let uci_line (rest : string) : unit =
+  let toks = List.filter (fun x -> x <> "") (String.split_on_char ' ' (String.map (fun c -> if c = '\t' then ' ' else c) rest)) in
+  let c =
+    match toks with
+    | "position" :: args -> Some (CPosition (List.map scalars_of_string args))
+    | ["ucinewgame"] -> Some CNewGame
+    | ["show"] | ["d"] -> Some CShow
+    | ["isready"] -> Some CIsReady
+    | ["uci"] -> Some CUci
+    | ["go"; "depth"; n] -> (try Some (CGo (Some (z_of_int (int_of_string n)), z_of_int (-1))) with _ -> None)
+    | _ -> None in
+  match c with
+  | None -> print_string "uci unsupported\n"
+  | Some c ->
+      let (s', outs) = run_cmd !usess c in
+      usess := s';
+      List.iter print_out outs
+
 let run (line : string) : unit =
   let (cmd, rest) = split_first line in
   match cmd with
+  | "uci" -> uci_line rest
+  | "ucireset" -> usess := init_session; print_string "ucireset ok\n"
   | "new" ->
       sess.pushed <- [];
       (match import (scalars_of_string rest) with
